@@ -85,6 +85,11 @@ func init() {
 		runHistories(r, profile{Hostile: 70, Faults: 3, Attack: 8, Logout: 3, Ticks: 18, Histories: scale(r, 60, 1500), Length: 45}, histRule)
 	}
 	checks["C05"] = func(r *Run) {
+		loaderLayouts(r, "[C05]") // what the cookie name is built from is what was configured, and is a token, wherever it was written
+		if r.unknownViolations() > 0 {
+			r.Finish("the same filter written as oidc / default_oidc_config / oidc_override, loaded by the real loader")
+			return
+		}
 		singleFaultSweep(r, "[C05]")
 		if r.unknownViolations() == 0 {
 			cookielessCallback(r, "C05")
@@ -117,6 +122,11 @@ func init() {
 		runHistories(r, profile{Hostile: 30, Faults: 6, Attack: 3, Logout: 2, Ticks: 40, Histories: scale(r, 60, 1500), Length: 60}, histRule)
 	}
 	checks["C13"] = func(r *Run) {
+		loaderLayouts(r, "[C13]") // the callback URI in force (the redirect_uri of every login) is the configured one, byte for byte
+		if r.unknownViolations() > 0 {
+			r.Finish("the same filter written as oidc / default_oidc_config / oidc_override, loaded by the real loader")
+			return
+		}
 		singleFaultSweep(r, "[C13]") // a redirect built on an error path must still be a redirect with its no-cache headers - or not a redirect
 		if r.unknownViolations() == 0 {
 			overlappingLogins(r, "C13")
